@@ -372,7 +372,8 @@ def h_edges(k):
                 continue
             kk = kind + ("/rhs" if rhs else "")
             pairs += 1
-            kinds[kk] = kinds.get(kk, 0) + 1
+            if isinstance(leaf, K.Choice) or leaf.nodes:
+                kinds[kk] = kinds.get(kk, 0) + 1
             if x not in leaf._dependents:
                 missing.append((getattr(x, "name", None) or "<choice>", getattr(leaf, "name", None) or "<choice>", kk))
 
@@ -1731,7 +1732,7 @@ def _hand_trees():
 
 _SIZES = {
     # tier: (random trees, n_syms, histories per (tree, parser), history length, configurations per tree for C01)
-    "quick": {"rand": 420, "n_syms": 6, "hist": 3, "hlen": 8, "hand_hist": 10, "hand_hlen": 10, "cfgs": 40, "hand_cfgs": 160},
+    "quick": {"rand": 400, "n_syms": 6, "hist": 3, "hlen": 8, "hand_hist": 8, "hand_hlen": 10, "cfgs": 24, "hand_cfgs": 90},
     "thorough": {"rand": 4000, "n_syms": 7, "hist": 5, "hlen": 10, "hand_hist": 40, "hand_hlen": 12, "cfgs": 70, "hand_cfgs": 600},
 }
 
@@ -1982,3 +1983,1241 @@ def _report_exception(acc, e, spec, pv, ops, phase):
         "%s raised in %s (%s) on tree %s parser %d after ops %s" % (type(e).__name__, where, _short(e, 200), spec.origin, pv, _short(ops, 400)),
         lambda: _mk_script(_BODY_EXC, TEXT=spec.text, RENAME=spec.rename_text, PV=pv, OPS=[o for o in ops if o is not None]),
     )
+
+
+# ----------------------------------------------------------------------------------------------
+# C03
+# ----------------------------------------------------------------------------------------------
+
+_BODY_C03 = '''
+ev, nt, fails, done = h_c03_history(TEXT, RENAME, PV, OPS, d, READ_SEED, FRESH)
+for f in fails:
+    print("C03 violated:", f["cmp"], "after step", f["step"], f["opkind"], "->", f["diff"])
+    if EXPECT_CMP is None or (f["cmp"], f["diff"][1]) == EXPECT_CMP:
+        sys.exit(1)
+print("no difference" if not fails else "other difference only")
+sys.exit(0)
+'''
+
+_BODY_EDGES = '''
+k = h_load(TEXT, RENAME, d, PV)
+pairs, kinds, missing = h_edges(k)
+for m in missing:
+    print("missing invalidation edge: %s is not in %s._dependents (%s)" % m)
+sys.exit(1 if any(m[2] == KIND for m in missing) else 0)
+'''
+
+
+def _c03_run_history(text, rename, pv, ops, d, read_seed, fresh=True):
+    try:
+        ev, nt, fails, done = h_c03_history(text, rename, pv, ops, d, read_seed, fresh)
+        return ev, nt, fails, done, None
+    except Exception as e:  # noqa: BLE001
+        return 0, 0, [], list(ops), e
+
+
+def _minimize_ops(ops, still_fails, budget=40):
+    """greedy one-at-a-time removal of ops while still_fails(ops) holds"""
+    ops = list(ops)
+    i = 0
+    while i < len(ops) and budget > 0:
+        cand = ops[:i] + ops[i + 1:]
+        budget -= 1
+        if still_fails(cand):
+            ops = cand
+        else:
+            i += 1
+    return ops
+
+
+def _c03_task(acc, task, tier, seed, d, state):
+    spec = _tree_of(task, tier, seed)
+    model = Model(spec.text)
+    sz = _SIZES[tier]
+    hand = task[0] == "hand"
+    n_hist = sz["hand_hist"] if hand else (sz["hist"] if task[0] == "rand" else 2)
+    hlen = sz["hand_hlen"] if hand else (sz["hlen"] if task[0] == "rand" else 6)
+    for pv in _pvs(task):
+        # --- edge completeness, right after construction
+        try:
+            k = h_load(spec.text, spec.rename_text, d, pv)
+            pairs, kinds, missing = h_edges(k)
+        except Exception as e:  # noqa: BLE001
+            _report_exception(acc, e, spec, pv, [], "construction")
+            continue
+        acc.evals += pairs
+        for kk, n in kinds.items():
+            if kk.startswith(("range-", "set-value", "set-default-value", "choice-reads-member(", "member-reads")) or kk.endswith("/rhs"):
+                acc.nontrivial += n
+            acc.branch("edge:" + kk)
+        for x, leaf, kk in missing:
+            acc.violation(
+                "missing-edge:" + kk, "Kconfig._build_dep/_add_choice_deps: every item an option's evaluation reads has the option in _dependents",
+                "tree %s parser %d: %s reads %s (%s) but is not in %s._dependents" % (spec.origin, pv, x, leaf, kk, leaf),
+                lambda kk=kk: _mk_script(_BODY_EDGES, TEXT=spec.text, RENAME=spec.rename_text, PV=pv, KIND=kk))
+        # --- histories
+        for h in range(n_hist):
+            rng = _task_rng("C03", task, seed, pv * 1000 + h)
+            ops = _gen_history(rng, model, hlen, loads=("plain", "plain", "own", "marked"))
+            read_seed = rng.randrange(1 << 30)
+            ev, nt, fails, done, exc = _c03_run_history(spec.text, spec.rename_text, pv, ops, d, read_seed)
+            acc.evals += ev
+            acc.nontrivial += nt
+            if exc is not None:
+                _report_exception(acc, exc, spec, pv, done, "history")
+                continue
+            if h == 0 and pv == 1:
+                acc.sample({"tree": spec.origin, "parser": pv, "ops": _short(done, 300)})
+            for f in fails:
+                cls = "%s:%s:%s" % (f["cmp"], f["diff"][1], f["opkind"])
+                if cls in acc.viol:
+                    acc.viol[cls]["count"] += 1
+                    continue
+                prefix = done[:f["step"] + 1]
+                want = (f["cmp"], f["diff"][1])
+
+                def still(cand, want=want):
+                    r = _c03_run_history(spec.text, spec.rename_text, pv, cand, d, read_seed)
+                    return r[4] is None and any((x["cmp"], x["diff"][1]) == want for x in r[2])
+                if state["minimized"] < 8:
+                    state["minimized"] += 1
+                    small = _minimize_ops(prefix, still)
+                    if not still(small):
+                        small = prefix
+                else:
+                    small = prefix
+                key, attr, lhs, rhs = f["diff"]
+                acc.violation(
+                    cls, "mutators (%s): every cached result equals its recomputation / a fresh instance / any read order" % f["opkind"],
+                    "tree %s parser %d, history %s (minimised: %s): %s of %s is %s under '%s' but %s after recomputation" % (
+                        spec.origin, pv, _short(prefix, 300), _short(small, 300), attr, key, _short(repr(lhs), 120), f["cmp"], _short(repr(rhs), 120)),
+                    lambda small=small, want=want: _mk_script(_BODY_C03, TEXT=spec.text, RENAME=spec.rename_text, PV=pv, OPS=small,
+                                                              READ_SEED=read_seed, FRESH=True, EXPECT_CMP=want))
+
+
+# ----------------------------------------------------------------------------------------------
+# C01
+# ----------------------------------------------------------------------------------------------
+
+_BODY_VALUE = '''
+k = h_load(TEXT, RENAME, d, PV)
+for op in OPS:
+    h_apply_op(k, op, d)
+obs = WHAT(k)
+print(DESCR)
+print("observed:", repr(obs), " expected:", repr(EXPECT))
+sys.exit(0 if SAME(obs, EXPECT) else 1)
+'''
+
+
+def _value_script(spec, pv, ops, what_src, expect, same_src, descr):
+    body = _BODY_VALUE.replace("WHAT(k)", "(%s)" % what_src).replace("SAME(obs, EXPECT)", "(%s)" % same_src)
+    return _mk_script(body, TEXT=spec.text, RENAME=spec.rename_text, PV=pv, OPS=list(ops), EXPECT=expect, DESCR=descr)
+
+
+_SAME_SRC = {
+    "int": "obs != '' and EXPECT != '' and int(obs, 10) == EXPECT if EXPECT != '' else obs == ''",
+    "hex": "obs != '' and int(obs, 16) == EXPECT if EXPECT != '' else obs == ''",
+    "float": "obs != '' and float(obs) == EXPECT if EXPECT != '' else obs == ''",
+    "string": "obs == EXPECT",
+    "bool": "obs == EXPECT",
+}
+
+_BODY_NOEFFECT = '''
+def outs(ops):
+    k = h_load(TEXT, RENAME, d, PV)
+    for op in ops:
+        h_apply_op(k, op, d)
+    vals = dict((s.name, (s.str_value, s.visibility, tuple(s.assignable))) for s in k.unique_defined_syms)
+    for i, c in enumerate(k.unique_choices):
+        vals["choice %d" % i] = c.selection.name if c.selection else None
+    o, js = h_outputs(k, d)
+    o["sdkconfig"] = h_strip_markers(o["sdkconfig"])
+    return vals, o, js
+with_value = outs(OPS)
+without = outs([op for op in OPS if op[1] != HIDDEN])
+print("user value on %s, whose prompt condition is false" % HIDDEN)
+bad = False
+for a, b, label in zip(with_value, without, ("values", "generated files", "json")):
+    if a != b:
+        bad = True
+        for key in a:
+            if a[key] != b.get(key):
+                print(label, key, ": with", repr(a[key])[:300], "| without", repr(b.get(key))[:300])
+sys.exit(1 if bad else 0)
+'''
+
+
+def _core_tag(tag):
+    t = tag.split(">")[-1]
+    return t.replace("+clamped", "").replace("+hidden-user", "")
+
+
+def _check_values(acc, spec, model, pv, ops, k, sp, prop="C01"):
+    """spec value / visibility / selection against the library for every option and choice of one configuration"""
+    for name in model.order:
+        o = model.opts[name]
+        sym = k.syms[name]
+        typ = o["type"]
+        acc.evals += 1
+        v = 2 if sp.opt_vis(name) else 0
+        if v != sym.visibility:
+            acc.violation(
+                "visibility:%s%s" % (typ, ":choice-member" if o["choice"] else ""),
+                "Symbol.visibility / _visibility: y iff some prompt's condition && inherited depends on / if / menu && every enclosing visible if holds",
+                "tree %s parser %d after %s: visibility of %s is %d, the tree structure prescribes %d" % (spec.origin, pv, _short(ops), name, sym.visibility, v),
+                lambda name=name, v=v: _value_script(spec, pv, ops, "k.syms[%r].visibility" % name, v, "obs == EXPECT", "visibility of %s" % name))
+        exp, tag, skip = sp.value(name)
+        if skip:
+            acc.branch("skip:" + skip[:40])
+            continue
+        acc.branch("%s:%s" % (typ, _core_tag(tag)))
+        if _core_tag(tag) not in ("default-lit", "none", "default", "choice:default", "choice:first-visible") or ">" in tag or "+" in tag:
+            acc.nontrivial += 1
+        obs = sym.str_value
+        if not _val_matches(typ, exp, obs):
+            cls = "precedence:%s:%s%s" % (typ, _core_tag(tag), ":empty" if exp == "" and typ == "string" else "")
+            acc.violation(
+                cls, "Symbol.str_value: set > visible user value (in range) > set default under direct deps > first true default > n/empty; select / imply for bool",
+                "tree %s parser %d after %s: %s (%s) is %r, the documented precedence (deciding step: %s) prescribes %r" % (
+                    spec.origin, pv, _short(ops), name, typ, obs, tag, exp),
+                lambda name=name, exp=exp, typ=typ, tag=tag: _value_script(
+                    spec, pv, ops, "k.syms[%r].str_value" % name, exp, _SAME_SRC[typ], "str_value of %s (%s), deciding step %s" % (name, typ, tag)))
+    for ch in model.choices:
+        lib = k.unique_choices[ch["index"]]
+        acc.evals += 1
+        cv = 2 if sp.choice_vis(ch) else 0
+        if cv != lib.visibility:
+            acc.violation(
+                "visibility:choice", "Choice.visibility: prompt condition && inherited conditions && enclosing visible if",
+                "tree %s parser %d after %s: visibility of choice %s is %d, the tree structure prescribes %d" % (spec.origin, pv, _short(ops), ch["name"], lib.visibility, cv),
+                lambda ch=ch, cv=cv: _value_script(spec, pv, ops, "k.unique_choices[%d].visibility" % ch["index"], cv, "obs == EXPECT", "visibility of choice"))
+
+
+def _apply_cfg(spec, pv, cfg, d):
+    k = h_load(spec.text, spec.rename_text, d, pv)
+    for op in cfg:
+        h_apply_op(k, op, d)
+    return k
+
+
+def _observe_all(k, d):
+    vals = dict((s.name, (s.str_value, s.visibility, tuple(s.assignable))) for s in k.unique_defined_syms)
+    for i, c in enumerate(k.unique_choices):
+        vals["choice %d" % i] = c.selection.name if c.selection else None
+    o, js = h_outputs(k, d)
+    o["sdkconfig"] = h_strip_markers(o["sdkconfig"])
+    return vals, o, js
+
+
+def _c01_task(acc, task, tier, seed, d, state):
+    spec = _tree_of(task, tier, seed)
+    model = Model(spec.text)
+    sz = _SIZES[tier]
+    count = sz["hand_cfgs"] if task[0] == "hand" else (sz["cfgs"] if task[0] == "rand" else min(sz["cfgs"], 24))
+    for pv in _pvs(task):
+        rng = _task_rng("C01", task, seed, pv)
+        cfgs = _configs(rng, model, count)
+        for ci, cfg in enumerate(cfgs):
+            try:
+                k = _apply_cfg(spec, pv, cfg, d)
+                sp = Spec(k, model)
+                _check_values(acc, spec, model, pv, cfg, k, sp)
+                hidden = [n for n in model.order if k.syms[n]._user_value is not None and not sp.opt_vis(n)]
+            except Exception as e:  # noqa: BLE001
+                _report_exception(acc, e, spec, pv, cfg, "configuration")
+                continue
+            if ci == 1 and pv == 1:
+                acc.sample({"tree": spec.origin, "parser": pv, "assignment": _short(cfg, 200)})
+            if not hidden:
+                continue
+            rng.shuffle(hidden)
+            for hname in hidden[:2]:
+                acc.evals += 1
+                acc.nontrivial += 1
+                try:
+                    a = _observe_all(_apply_cfg(spec, pv, cfg, d), d)
+                    b = _observe_all(_apply_cfg(spec, pv, [op for op in cfg if op[1] != hname], d), d)
+                except Exception as e:  # noqa: BLE001
+                    _report_exception(acc, e, spec, pv, cfg, "outputs")
+                    continue
+                if a != b:
+                    where = "values" if a[0] != b[0] else "generated-files"
+                    first = next((key for key in a[0] if a[0][key] != b[0].get(key)), None)
+                    reason = _hidden_reason(model, sp, hname)
+                    acc.violation(
+                        "hidden-user-value-has-effect:%s:%s" % (reason, where),
+                        "Symbol.set_value on an option whose prompt condition is false: every output identical to the same configuration without it",
+                        "tree %s parser %d, assignment %s: the user value on %s (hidden: %s) changes %s, e.g. %s: %r with vs %r without" % (
+                            spec.origin, pv, _short(cfg), hname, reason, where, first, a[0].get(first), b[0].get(first)),
+                        lambda hname=hname: _mk_script(_BODY_NOEFFECT, TEXT=spec.text, RENAME=spec.rename_text, PV=pv, OPS=list(cfg), HIDDEN=hname))
+
+
+def _hidden_reason(model, sp, name):
+    """why the spec says the prompt of 'name' is hidden (first failing ingredient of the first definition with a prompt)"""
+    o = model.opts[name]
+    defs = [d for d in o["defs"] if d["prompt"]]
+    if not defs:
+        return "promptless"
+    d = defs[0]
+    if not sp.ev(d["prompt_cond"]):
+        return "prompt-if"
+    if not sp.all(d["depends"]):
+        return "depends-on"
+    menus = [f for f in d["frames"] if f[0] == "menu"]
+    for f in d["frames"]:
+        if f[0] == "if" and not sp.ev(f[1]):
+            return "enclosing-if"
+        if f[0] == "menu" and not sp.all(f[1]["dep"]):
+            return "menu-depends-on"
+        if f[0] == "choice" and not sp.choice_vis(f[1]):
+            return "choice-invisible"
+    for i, f in enumerate(menus):
+        if not sp.all(f[1]["vis"]):
+            return "visible-if" + ("-of-outer-menu" if i < len(menus) - 1 else "")
+    return "other"
+
+
+# ----------------------------------------------------------------------------------------------
+# C05
+# ----------------------------------------------------------------------------------------------
+
+def _check_choices(acc, spec, model, pv, ops, k, sp, outs):
+    defines = h_defines(outs[0]["autoconf"])
+    defines2 = h_defines(outs[0]["header"])
+    cm = h_cmake_sets(outs[0]["cmake"])
+    js = outs[1]
+    for ch in model.choices:
+        lib = k.unique_choices[ch["index"]]
+        acc.evals += 1
+        sel, why = sp.selection(ch)
+        acc.branch("choice:" + why)
+        if why not in ("default", "first-visible"):
+            acc.nontrivial += 1
+        ys = [m for m in ch["members"] if k.syms[m].str_value == "y"]
+        vis_members = [m for m in ch["members"] if sp.opt_vis(m)]
+        label = ch["name"] or "<unnamed %d>" % ch["index"]
+        ctx = "tree %s parser %d after %s: choice %s" % (spec.origin, pv, _short(ops), label)
+        if sp.choice_vis(ch) and vis_members:
+            if len(ys) != 1:
+                acc.violation(
+                    "choice-not-exactly-one:%d-at-y" % min(len(ys), 2), "Choice._selection / Symbol.bool_value: a visible choice with a visible member has exactly one member at y",
+                    "%s is visible, visible members %s, members at y: %s" % (ctx, vis_members, ys),
+                    lambda ch=ch: _value_script(spec, pv, ops, "[m.name for m in k.unique_choices[%d].syms if m.str_value == 'y']" % ch["index"], 1,
+                                                "len(obs) == EXPECT", "members at y of the visible choice (exactly one expected)"))
+        elif not sp.choice_vis(ch) and ys:
+            acc.violation(
+                "invisible-choice-has-member-at-y", "Symbol.bool_value (choice member): an invisible choice has no member at y",
+                "%s is invisible but members at y: %s" % (ctx, ys),
+                lambda ch=ch: _value_script(spec, pv, ops, "[m.name for m in k.unique_choices[%d].syms if m.str_value == 'y']" % ch["index"], [],
+                                            "obs == EXPECT", "members at y of the invisible choice"))
+        libsel = lib.selection.name if lib.selection is not None else None
+        if libsel != sel or ys != ([sel] if sel else []):
+            acc.violation(
+                "selection-rule:%s" % why, "Choice.selection: user pick if visible, else first default whose condition holds and whose member is visible, else first visible member",
+                "%s: selection is %s (members at y %s), the rule (%s) prescribes %s" % (ctx, libsel, ys, why, sel),
+                lambda ch=ch, sel=sel, why=why: _value_script(
+                    spec, pv, ops, "(lambda c: (c.selection.name if c.selection else None, [m.name for m in c.syms if m.str_value == 'y']))(k.unique_choices[%d])" % ch["index"],
+                    (sel, [sel] if sel else []), "tuple(obs) == tuple(EXPECT)", "selection of the choice and its members at y (rule: %s)" % why))
+        for fmt, got in (("autoconf-header", [m for m in ch["members"] if m in defines]),
+                         ("kconfgen-header", [m for m in ch["members"] if m in defines2]),
+                         ("cmake", [m for m in ch["members"] if cm.get(m)]),
+                         ("json", [m for m in ch["members"] if js.get(m)])):
+            acc.evals += 1
+            if got != ys:
+                acc.violation(
+                    "output-members:%s" % fmt, "write_autoconf / kconfgen.write_header / write_cmake / get_json_values: the selected member is the only member defined",
+                    "%s: members at y %s but %s defines %s" % (ctx, ys, fmt, got),
+                    lambda ch=ch, fmt=fmt: _mk_script(_BODY_OUTMEMBERS, TEXT=spec.text, RENAME=spec.rename_text, PV=pv, OPS=list(ops), CH=ch["index"], FMT=fmt))
+
+
+_BODY_OUTMEMBERS = '''
+k = h_load(TEXT, RENAME, d, PV)
+for op in OPS:
+    h_apply_op(k, op, d)
+ch = k.unique_choices[CH]
+ys = [m.name for m in ch.syms if m.str_value == "y"]
+o, js = h_outputs(k, d)
+got = {"autoconf-header": [m.name for m in ch.syms if m.name in h_defines(o["autoconf"])],
+       "kconfgen-header": [m.name for m in ch.syms if m.name in h_defines(o["header"])],
+       "cmake": [m.name for m in ch.syms if h_cmake_sets(o["cmake"]).get(m.name)],
+       "json": [m.name for m in ch.syms if js.get(m.name)]}[FMT]
+print("members at y:", ys, FMT, "defines:", got)
+sys.exit(0 if got == ys else 1)
+'''
+
+
+def _load_pick_contract(acc, spec, model, pv, ops, k, op):
+    """load_config: of several members assigned y in one (non default-marked) file, the last one becomes the user pick"""
+    last = {}
+    for line in op[2].split("\n"):
+        m = re.match(r"CONFIG_(\w+)=y\Z", line)
+        if m and m.group(1) in model.opts and model.opts[m.group(1)]["choice"] is not None:
+            last[model.opts[m.group(1)]["choice"]["index"]] = m.group(1)
+    for ci, member in last.items():
+        acc.evals += 1
+        lib = k.unique_choices[ci]
+        got = lib._user_selection.name if lib._user_selection is not None else None
+        n_y = len(re.findall(r"^CONFIG_(?:%s)=y$" % "|".join(model.choices[ci]["members"]), op[2], re.M))
+        if n_y > 1:
+            acc.nontrivial += 1
+        if got != member:
+            acc.violation(
+                "load-last-y-wins", "Kconfig.load_config: of the members of a choice assigned y in the file, the last one is the user's pick",
+                "tree %s parser %d after %s: user selection of choice %d is %s, last y-assigned member in the file is %s" % (spec.origin, pv, _short(ops), ci, got, member),
+                lambda ci=ci, member=member: _value_script(spec, pv, ops, "getattr(k.unique_choices[%d]._user_selection, 'name', None)" % ci, member, "obs == EXPECT",
+                                                           "user selection after loading a file assigning several members"))
+
+
+def _hist_task(prop, acc, task, tier, seed, d, state):
+    """C05 / C06 / C09(accepted trees): histories on ONE long-lived instance, everything read after every op (warm caches)"""
+    spec = _tree_of(task, tier, seed)
+    model = Model(spec.text)
+    if prop == "C05" and not model.choices:
+        return
+    sz = _SIZES[tier]
+    hand = task[0] == "hand"
+    n_hist = sz["hand_hist"] if hand else (sz["hist"] + 1 if task[0] == "rand" else 2)
+    hlen = sz["hand_hlen"] if hand else (sz["hlen"] if task[0] == "rand" else 6)
+    loads = ("plain",) if prop != "C09" else ("plain", "own", "marked")
+    for pv in _pvs(task):
+        for h in range(n_hist):
+            rng = _task_rng(prop, task, seed, pv * 1000 + h)
+            ops = _gen_history(rng, model, hlen, loads=loads, odd=prop in ("C06", "C09"))
+            done = []
+            try:
+                k = h_load(spec.text, spec.rename_text, d, pv)
+                for i in range(-1, len(ops)):
+                    if i >= 0:
+                        op = ops[i]
+                        if op[0] == "load" and op[2] is None:
+                            p = os.path.join(d, "own_sdkconfig")
+                            k.write_config(p, header="", save_old=False)
+                            op = ("load", op[1], open(p, encoding="utf-8").read(), op[3])
+                        done.append(op)
+                        h_apply_op(k, op, d)
+                    if prop == "C09":
+                        acc.evals += 1
+                        snapshot(k) if i % 2 else snapshot_reversed(k)
+                        h_choice_extra(k)
+                        h_outputs(k, d)
+                        if i >= 0 and done[-1][0] == "load":
+                            acc.nontrivial += 1
+                        continue
+                    sp = Spec(k, model)
+                    outs = h_outputs(k, d)
+                    if prop == "C05":
+                        _check_choices(acc, spec, model, pv, list(done), k, sp, outs)
+                        if i >= 0 and done[-1][0] == "load" and done[-1][1] == "plain":
+                            _load_pick_contract(acc, spec, model, pv, list(done), k, done[-1])
+                    else:
+                        _check_wellformed(acc, spec, model, pv, list(done), k, sp, outs)
+            except Exception as e:  # noqa: BLE001
+                _report_exception(acc, e, spec, pv, done, "history")
+                continue
+            if h == 0 and pv == 1:
+                acc.sample({"tree": spec.origin, "parser": pv, "ops": _short(done, 300)})
+
+
+# ----------------------------------------------------------------------------------------------
+# C06
+# ----------------------------------------------------------------------------------------------
+
+_FMT = {
+    "int": re.compile(r"[+-]?[0-9]+\Z"),
+    "hex": re.compile(r"(0[xX])?[0-9a-fA-F]+\Z"),
+    "float": re.compile(r"[+-]?([0-9]+\.?[0-9]*|\.[0-9]+)([eE][+-]?[0-9]+)?\Z"),
+}
+
+
+def _malformed_feature(typ, v):
+    if v != v.strip() or re.search(r"\s", v):
+        return "whitespace"
+    if "_" in v:
+        return "underscore"
+    if not v.isascii():
+        return "non-ascii-digits"
+    if typ == "hex" and v[:1] in "+-":
+        return "sign"
+    return "other"
+
+
+def _c_int(token):
+    """value of a C integer literal token (decimal / octal / hex), or None if it is not one"""
+    m = re.match(r"([+-]?)(0[xX][0-9a-fA-F]+|0[0-7]*|[1-9][0-9]*)\Z", token)
+    if not m:
+        return None
+    body = m.group(2)
+    n = int(body, 16) if body[:2] in ("0x", "0X") else (int(body, 8) if body.startswith("0") and len(body) > 1 else int(body, 10))
+    return -n if m.group(1) == "-" else n
+
+
+def _check_wellformed(acc, spec, model, pv, ops, k, sp, outs):
+    defines = h_defines(outs[0]["autoconf"])
+    defines2 = h_defines(outs[0]["header"])
+    cm = h_cmake_sets(outs[0]["cmake"])
+    js = outs[1]
+    ctx = "tree %s parser %d after %s" % (spec.origin, pv, _short(ops))
+    for name in model.order:
+        o = model.opts[name]
+        typ = o["type"]
+        sym = k.syms[name]
+        v = sym.str_value
+        acc.evals += 1
+        if typ == "bool":
+            if v not in ("y", "n"):
+                acc.violation("malformed:bool", "Symbol.str_value: y or n for bool", "%s: %s is %r" % (ctx, name, v),
+                              lambda name=name: _value_script(spec, pv, ops, "k.syms[%r].str_value" % name, ("y", "n"), "obs in EXPECT", "bool value"))
+            continue
+        if typ == "string":
+            continue
+        exp, tag, skip = sp.value(name)
+        if v == "":
+            if not skip and exp != "":
+                acc.violation(
+                    "empty-although-provided:%s:%s" % (typ, _core_tag(tag)), "Symbol.str_value: empty only when nothing provides a value",
+                    "%s: %s (%s) is empty although %s provides %r" % (ctx, name, typ, tag, exp),
+                    lambda name=name: _value_script(spec, pv, ops, "k.syms[%r].str_value" % name, "", "obs != EXPECT", "numeric value must not be empty"))
+            continue
+        wf = bool(_FMT[typ].match(v)) and v.isascii() and _num(typ, v) is not None
+        if not wf:
+            feat = _malformed_feature(typ, v)
+            acc.nontrivial += 1
+            acc.violation(
+                "malformed:%s:%s" % (typ, feat),
+                "Symbol.str_value (after set_value / load_config): base-10 integer for int, non-negative base-16 integer for hex, finite float for float",
+                "%s: %s (%s) is exposed as %r" % (ctx, name, typ, v),
+                lambda name=name, typ=typ: _value_script(spec, pv, ops, "k.syms[%r].str_value" % name, _FMT[typ].pattern,
+                                                         "re.match(EXPECT, obs) is not None and obs.isascii()", "lexical form of the %s value" % typ))
+        n = _num(typ, v)
+        rng = sp.active_range(o)
+        if rng is not None and n is not None and rng[0] is not None and rng[1] is not None and rng[0] <= rng[1]:
+            acc.evals += 1
+            core = _core_tag(tag) if tag else "?"
+            if core not in ("default-lit", "user-in-range") or rng[2] or rng[3] or (tag and "+clamped" in tag):
+                acc.nontrivial += 1
+            if not rng[0] <= n <= rng[1]:
+                acc.violation(
+                    "out-of-range:%s:%s%s" % (typ, core, ":symbolic-bound" if rng[2] or rng[3] else ""),
+                    "Symbol.str_value: whenever a range with a true condition applies the value lies within its bounds (also for set / set default / after histories)",
+                    "%s: %s (%s) is %r = %r, outside its active range [%r, %r] (value provided by: %s)" % (ctx, name, typ, v, n, rng[0], rng[1], tag),
+                    lambda name=name, typ=typ, rng=rng: _value_script(
+                        spec, pv, ops, "k.syms[%r].str_value" % name, (rng[0], rng[1]),
+                        "EXPECT[0] <= (%s) <= EXPECT[1]" % {"int": "int(obs, 10)", "hex": "int(obs, 16)", "float": "float(obs)"}[typ], "value within the active range"))
+        if not wf or n is None:
+            continue
+        # generators agree with the exposed value
+        written = bool(sym.config_string)
+        for fmt, table in (("autoconf-header", defines), ("kconfgen-header", defines2)):
+            if not sym._write_to_conf:
+                continue
+            acc.evals += 1
+            tok = table.get(name)
+            ok = tok is not None
+            why = "missing"
+            if ok and typ == "hex":
+                ok = re.match(r"0[xX][0-9a-fA-F]+\Z", tok) is not None and int(tok, 16) == n
+                why = "hex without 0x prefix or other value"
+            elif ok and typ == "int":
+                ok = _c_int(tok) == n
+                why = "C literal denotes %r" % (_c_int(tok),)
+            elif ok:
+                ok = _num("float", tok) == n
+                why = "other value"
+            if not ok:
+                feat = "leading-zero-octal" if typ == "int" and re.match(r"[+-]?0[0-9]+\Z", v) else "value"
+                acc.violation(
+                    "header:%s:%s" % (typ, feat), "Kconfig.write_autoconf / kconfgen.write_header: render the exposed value (hex with 0x prefix)",
+                    "%s: %s (%s) is %r but the %s has %r (%s)" % (ctx, name, typ, v, fmt, tok, why),
+                    lambda name=name: _mk_script(_BODY_RENDER, TEXT=spec.text, RENAME=spec.rename_text, PV=pv, OPS=list(ops), NAME=name))
+        if written:
+            acc.evals += 2
+            tok = cm.get(name)
+            if typ == "hex":
+                ok = tok is not None and re.match(r"0x[0-9a-f]+\Z", tok) is not None and int(tok, 16) == n
+            else:
+                ok = tok is not None and _num(typ, tok) == n
+            if not ok:
+                acc.violation(
+                    "cmake:%s" % typ, "kconfgen.write_cmake: render the exposed value (hex with 0x prefix)",
+                    "%s: %s (%s) is %r but CMake has %r" % (ctx, name, typ, v, tok),
+                    lambda name=name: _mk_script(_BODY_RENDER, TEXT=spec.text, RENAME=spec.rename_text, PV=pv, OPS=list(ops), NAME=name))
+            j = js.get(name, "<absent>")
+            want_type = float if typ == "float" else int
+            if type(j) is not want_type or j != n:
+                acc.violation(
+                    "json:%s" % typ, "kconfgen.get_json_values: typed number equal to the exposed value",
+                    "%s: %s (%s) is %r but JSON has %r" % (ctx, name, typ, v, j),
+                    lambda name=name: _mk_script(_BODY_RENDER, TEXT=spec.text, RENAME=spec.rename_text, PV=pv, OPS=list(ops), NAME=name))
+
+
+_BODY_RENDER = '''
+k = h_load(TEXT, RENAME, d, PV)
+for op in OPS:
+    h_apply_op(k, op, d)
+s = k.syms[NAME]
+v = s.str_value
+typ = K.TYPE_TO_STR[s.orig_type]
+o, js = h_outputs(k, d)
+n = int(v, 10) if typ == "int" else int(v, 16) if typ == "hex" else float(v)
+bad = False
+for fmt in ("autoconf", "header"):
+    tok = h_defines(o[fmt]).get(NAME)
+    print(fmt, repr(tok), "for value", repr(v))
+    if s._write_to_conf:
+        if typ == "hex":
+            bad |= tok is None or re.match(r"0[xX][0-9a-fA-F]+\\Z", tok) is None or int(tok, 16) != n
+        elif typ == "int":
+            m = re.match(r"([+-]?)(0[xX][0-9a-fA-F]+|0[0-7]*|[1-9][0-9]*)\\Z", tok or "?")
+            c = None
+            if m:
+                b = m.group(2)
+                c = int(b, 16) if b[:2] in ("0x", "0X") else int(b, 8) if b.startswith("0") and len(b) > 1 else int(b)
+                c = -c if m.group(1) == "-" else c
+            bad |= c != n
+        else:
+            bad |= tok is None or float(tok) != n
+if s.config_string:
+    tok = h_cmake_sets(o["cmake"]).get(NAME)
+    print("cmake", repr(tok), "json", repr(js.get(NAME)))
+    if typ == "hex":
+        bad |= tok is None or re.match(r"0x[0-9a-f]+\\Z", tok) is None or int(tok, 16) != n
+    else:
+        bad |= tok is None or float(tok) != float(n)
+    bad |= type(js.get(NAME)) is not (float if typ == "float" else int) or js.get(NAME) != n
+sys.exit(1 if bad else 0)
+'''
+
+
+# ----------------------------------------------------------------------------------------------
+# C09: trees that are cyclic by construction
+# ----------------------------------------------------------------------------------------------
+
+class _TB:
+    """tiny tree builder for the cyclic trees: options N0, N1, ... plus independent helper options"""
+
+    LIT = {"bool": "y", "int": "5", "string": '"s"'}
+
+    def __init__(self):
+        self.opts = {}
+        self.order = []
+        self.helpers = {}
+
+    def opt(self, name, typ):
+        self.opts[name] = {"type": typ, "prompt_if": [], "depends": [], "pre": [], "lines": [], "wrap": []}
+        self.order.append(name)
+
+    def helper(self, name):
+        if name not in self.helpers:
+            typ, default = {"KB": ("bool", "y"), "KI": ("int", "3"), "KS": ("string", '"a"'), "HS": ("bool", "y")}[name]
+            self.helpers[name] = {"type": typ, "default": default, "lines": []}
+        return name
+
+    def mention(self, src, form):
+        typ = self.opts[src]["type"]
+        if typ == "bool":
+            return {"plain": src, "neg": "!" + src, "lhs": src + " = y", "rhs": None, "rhs-ne": None}.get(form) or (
+                "%s = %s" % (self.helper("KB"), src) if form == "rhs" else "%s != %s" % (self.helper("KB"), src))
+        if typ == "int":
+            return {"plain": src + " > 3", "neg": "!(%s > 3)" % src, "lhs": src + " = 5", "rhs-ne": "3 != " + src}.get(form) or "%s <= %s" % (self.helper("KI"), src)
+        return {"plain": src + ' = "a"', "neg": '!(%s = "a")' % src, "lhs": src + ' != "a"', "rhs-ne": '"a" != ' + src}.get(form) or "%s = %s" % (self.helper("KS"), src)
+
+    def edge(self, kind, form, dep, src):
+        """make option 'dep' depend on option 'src' through a property of the given kind"""
+        o = self.opts[dep]
+        lit = self.LIT[o["type"]]
+        cond = self.mention(src, form) if form else None
+        if kind == "prompt_if":
+            o["prompt_if"].append(cond)
+        elif kind == "depends_on":
+            o["depends"].append(cond)
+        elif kind == "default_cond":
+            o["pre"].append("default %s if %s" % (lit, cond))
+        elif kind == "if_block":
+            o["wrap"].append(("if", cond))
+        elif kind == "menu_dep":
+            o["wrap"].append(("menu", cond, None))
+        elif kind == "menu_vis":
+            o["wrap"].append(("menu", None, cond))
+        elif kind == "default_val":
+            o["pre"].append("default " + src)
+        elif kind == "default_notval":
+            o["pre"].append("default !" + src)
+        elif kind in ("select", "imply"):
+            self.opts[src]["lines"].append("%s %s" % (kind, dep))
+        elif kind == "select_cond":
+            self.helpers[self.helper("HS")]["lines"].append("select %s if %s" % (dep, cond))
+        elif kind == "range_lo":
+            o["lines"].append("range %s 100" % src)
+        elif kind == "range_hi":
+            o["lines"].append("range 0 %s" % src)
+        elif kind == "range_cond":
+            o["lines"].append("range 0 9 if %s" % cond)
+        elif kind in ("set_val", "setdef_val"):
+            self.helpers[self.helper("HS")]["lines"].append("%s %s=%s" % ("set" if kind == "set_val" else "set default", dep, src))
+        elif kind in ("set_cond", "setdef_cond"):
+            self.helpers[self.helper("HS")]["lines"].append("%s %s=%s if %s" % ("set" if kind == "set_cond" else "set default", dep, lit, cond))
+        elif kind in ("set_src", "setdef_src"):
+            self.opts[src]["lines"].append("%s %s=%s" % ("set" if kind == "set_src" else "set default", dep, lit))
+        else:
+            raise ValueError(kind)
+
+    def render(self):
+        out = ['mainmenu "T"', ""]
+        for name in ("KB", "KI", "KS", "HS"):
+            h = self.helpers.get(name)
+            if h:
+                out += ["config " + name, '    %s "%s"' % (h["type"], name.lower()), "    default " + h["default"]] + ["    " + l for l in h["lines"]] + [""]
+        for name in self.order:
+            o = self.opts[name]
+            ind = ""
+            closers = []
+            for w in o["wrap"]:
+                if w[0] == "if":
+                    out += [ind + "if " + w[1], ""]
+                    closers.append(ind + "endif")
+                else:
+                    out.append(ind + 'menu "m %s"' % name)
+                    if w[1]:
+                        out.append(ind + "    depends on " + w[1])
+                    if w[2]:
+                        out.append(ind + "    visible if " + w[2])
+                    out.append("")
+                    closers.append(ind + "endmenu")
+                ind += "    "
+            out.append(ind + "config " + name)
+            pif = " if " + " && ".join("(%s)" % c if ("||" in c) else c for c in o["prompt_if"]) if o["prompt_if"] else ""
+            out.append(ind + '    %s "%s"%s' % (o["type"], name.lower(), pif))
+            for c in o["depends"]:
+                out.append(ind + "    depends on " + c)
+            for l in o["lines"] + o["pre"]:
+                out.append(ind + "    " + l)
+            out.append(ind + "    default " + self.LIT[o["type"]])
+            out.append("")
+            for c in reversed(closers):
+                out += [c, ""]
+        return "\n".join(out).rstrip("\n") + "\n"
+
+
+_COND_KINDS = ("prompt_if", "depends_on", "default_cond", "if_block", "menu_dep", "menu_vis")
+_FORMS = ("plain", "neg", "lhs", "rhs", "rhs-ne")
+
+
+def _edge_variants(dep_t, src_t):
+    """[(kind, form)] through which an option of type dep_t can depend on an option of type src_t"""
+    out = [(k, f) for k in _COND_KINDS for f in _FORMS]
+    if dep_t == "bool" and src_t == "bool":
+        out += [("default_val", None), ("default_notval", None), ("select", None), ("imply", None)]
+    if dep_t == "bool":
+        out += [("select_cond", f) for f in ("plain", "rhs")]
+    if dep_t == "int":
+        out += [("range_cond", f) for f in _FORMS] + [("set_cond", f) for f in ("plain", "rhs")] + [("setdef_cond", f) for f in ("plain", "rhs")]
+        if src_t == "int":
+            out += [("range_lo", None), ("range_hi", None), ("default_val", None), ("set_val", None), ("setdef_val", None)]
+        if src_t == "bool":
+            out += [("set_src", None), ("setdef_src", None)]
+    if dep_t == "string":
+        out += [("set_cond", "plain"), ("setdef_cond", "rhs")]
+        if src_t == "string":
+            out += [("default_val", None), ("set_val", None), ("setdef_val", None)]
+        if src_t == "bool":
+            out += [("set_src", None), ("setdef_src", None)]
+    return out
+
+
+def _vname(v):
+    return v[0] + ("/" + v[1] if v[1] else "")
+
+
+_CHOICE_CYCLES = [
+    ("choice:member-depends-on-option-that-reads-sibling", ["M1", "M2", "Z"], '''
+choice CH
+    prompt "ch"
+
+    config M1
+        bool "m1"
+        depends on Z
+
+    config M2
+        bool "m2"
+
+endchoice
+
+config Z
+    bool "z"
+    default y if M2
+'''),
+    ("choice:member-prompt-if-option-that-reads-itself", ["M1", "Z"], '''
+choice CH
+    prompt "ch"
+
+    config M1
+        bool "m1" if Z
+
+    config M2
+        bool "m2"
+
+endchoice
+
+config Z
+    bool
+    default y if KB = M1
+
+config KB
+    bool "kb"
+'''),
+    ("choice:prompt-condition-reads-member", ["M1", "Z"], '''
+config Z
+    bool "z"
+    default y if !M1
+
+choice CH
+    prompt "ch" if Z
+
+    config M1
+        bool "m1"
+
+    config M2
+        bool "m2"
+
+endchoice
+'''),
+    ("choice:default-condition-reads-member", ["M2", "Z"], '''
+config Z
+    bool "z"
+    depends on M2
+
+choice CH
+    prompt "ch"
+    default M1 if Z
+
+    config M1
+        bool "m1"
+
+    config M2
+        bool "m2"
+
+endchoice
+'''),
+    ("choice:member-in-if-block", ["M1", "M2", "Z"], '''
+config Z
+    int "z"
+    default 7 if M2
+    default 1
+
+choice CH
+    prompt "ch"
+
+    if 3 < Z
+
+        config M1
+            bool "m1"
+
+    endif
+
+    config M2
+        bool "m2"
+
+endchoice
+'''),
+    ("choice:member-selects-option-read-by-sibling", ["M1", "M2", "Z"], '''
+choice CH
+    prompt "ch"
+
+    config M1
+        bool "m1"
+        select Z
+
+    config M2
+        bool "m2"
+        depends on !Z
+
+endchoice
+
+config Z
+    bool "z"
+'''),
+    ("choice:member-sets-option-read-by-sibling", ["M1", "M2", "V"], '''
+choice CH
+    prompt "ch"
+
+    config M1
+        bool "m1"
+        set V=5
+
+    config M2
+        bool "m2" if 3 >= V
+
+endchoice
+
+config V
+    int "v"
+    default 1
+'''),
+]
+
+_TWO_CHOICE = '''
+choice TRANSPORT
+    prompt "transport"
+
+    config TRANSPORT_UART
+        bool "uart"%(uart)s
+
+    config TRANSPORT_USB
+        bool "usb"%(usb)s
+
+endchoice
+
+config SILENT
+    bool "silent"%(silent)s
+
+choice CONSOLE
+    prompt "console"
+
+    config CONSOLE_UART
+        bool "console uart"%(cuart)s
+
+    config CONSOLE_NONE
+        bool "console none"%(cnone)s
+
+endchoice
+'''
+
+
+def _two_choice_cycles():
+    out = []
+
+    def mk(ident, names, **kw):
+        d = {"uart": "", "usb": "", "silent": "", "cuart": "", "cnone": ""}
+        d.update(kw)
+        out.append((ident, names, _TWO_CHOICE % d))
+    dep = "\n        depends on %s"
+    mk("two-choices:depends-on/depends-on", ["TRANSPORT_USB", "CONSOLE_NONE", "CONSOLE_UART", "TRANSPORT_UART"],
+       cuart=dep % "TRANSPORT_UART", usb=dep % "CONSOLE_NONE")
+    mk("two-choices:via-plain-option", ["TRANSPORT_USB", "SILENT", "CONSOLE_UART", "TRANSPORT_UART"],
+       cuart=dep % "TRANSPORT_UART", usb=dep % "SILENT", silent="\n    default y if CONSOLE_NONE")
+    mk("two-choices:prompt-if/rhs", ["TRANSPORT_UART", "CONSOLE_UART", "CONSOLE_NONE", "TRANSPORT_USB"],
+       cnone=" if SILENT != TRANSPORT_USB", uart=" if CONSOLE_UART")
+    mk("two-choices:first-members", ["TRANSPORT_UART", "CONSOLE_UART", "CONSOLE_NONE", "TRANSPORT_USB"],
+       cuart=dep % "!TRANSPORT_USB", uart=dep % "!CONSOLE_NONE")
+    return out
+
+
+def _cyclic_trees(tier):
+    """[(id, option names that must be named in the error, text, base id)]: every tree contains a dependency cycle by construction"""
+    out = []
+    bases = []
+    pairs = (("bool", "bool"), ("int", "int"), ("int", "bool"), ("string", "string"), ("string", "bool"))
+    for t0, t1 in pairs:
+        v01 = _edge_variants(t0, t1)   # N0 depends on N1
+        v10 = _edge_variants(t1, t0)   # N1 depends on N0
+        for a in v01:
+            tb = _TB()
+            tb.opt("N0", t0)
+            tb.opt("N1", t1)
+            tb.edge(a[0], a[1], "N0", "N1")
+            bases.append(("base:%s<-%s:%s" % (t0, t1, _vname(a)), tb.render()))
+            for b in v10:
+                minor = ("neg", "lhs", "rhs-ne")
+                if tier == "quick" and ((a[1] in minor and b[1] in minor) or ((t0, t1) != ("bool", "bool") and (a[1] in minor or b[1] in minor))):
+                    continue
+                tb = _TB()
+                tb.opt("N0", t0)
+                tb.opt("N1", t1)
+                tb.edge(a[0], a[1], "N0", "N1")
+                tb.edge(b[0], b[1], "N1", "N0")
+                out.append(("2-cycle:%s<-%s:%s|%s" % (t0, t1, _vname(a), _vname(b)), ["N0", "N1"], tb.render()))
+    # 3-cycles through a plain option in the middle: N0 <- N1 <- N2 <- N0
+    for t0, t2 in (("bool", "bool"), ("int", "bool"), ("bool", "int")):
+        for a in _edge_variants(t0, "bool"):
+            if a[1] not in (None, "plain", "rhs"):
+                continue
+            for b in _edge_variants(t2, t0):
+                if b[1] not in (None, "plain", "rhs"):
+                    continue
+                tb = _TB()
+                tb.opt("N0", t0)
+                tb.opt("N1", "bool")
+                tb.opt("N2", t2)
+                tb.edge(a[0], a[1], "N0", "N1")
+                tb.edge("default_cond", "plain", "N1", "N2")
+                tb.edge(b[0], b[1], "N2", "N0")
+                out.append(("3-cycle:%s,bool,%s:%s|%s" % (t0, t2, _vname(a), _vname(b)), ["N0", "N1", "N2"], tb.render()))
+    for ident, names, body in _CHOICE_CYCLES + _two_choice_cycles():
+        out.append((ident, names, 'mainmenu "T"\n\n' + body.strip("\n") + "\n"))
+    return out, bases
+
+
+_BODY_CYCLE = '''
+try:
+    k = h_load(TEXT, "", d, PV)
+except K.KconfigError as e:
+    msg = str(e)
+    m = re.search(r"\\.\\.\\.depends again on (?:the choice symbol )?(\\S+)", msg)
+    ok = "Dependency loop" in msg and m is not None and (m.group(1) in NAMES or m.group(1).startswith("<choice"))
+    print("rejected:", msg.strip().splitlines()[0] if msg.strip() else msg, "| names the loop:", ok)
+    sys.exit(0 if ok else 1)
+except BaseException as e:
+    print("wrong kind of error:", type(e).__name__, e)
+    sys.exit(1)
+print("cyclic tree ACCEPTED")
+try:
+    snapshot(k)
+    print("evaluation happened to finish")
+except BaseException as e:
+    print("evaluation fails with", type(e).__name__)
+sys.exit(1)
+'''
+
+_BODY_BASE = '''
+try:
+    k = h_load(TEXT, "", d, PV)
+    snapshot(k)
+    h_outputs(k, d)
+except BaseException as e:
+    print("acyclic tree rejected / not evaluable:", type(e).__name__, str(e)[:300])
+    sys.exit(1)
+sys.exit(0)
+'''
+
+
+def _names_loop(msg, names):
+    """the error shows a loop that closes on one of the options (or the choice) of the constructed cycle"""
+    m = re.search(r"\.\.\.depends again on (?:the choice symbol )?(\S+)", msg)
+    return "Dependency loop" in msg and m is not None and (m.group(1) in names or m.group(1).startswith("<choice"))
+
+
+def _c09_cycle_chunk(acc, items, d):
+    for kind, ident, names, text in items:
+        for pv in (1, 2):
+            for rep in range(2 if kind == "cyc" and pv == 1 else 1):
+                acc.evals += 1
+                spec = G.TreeSpec(text, origin="cyclic:" + ident)
+                if kind == "base":
+                    try:
+                        k = h_load(text, "", d, pv)
+                        snapshot(k)
+                        h_outputs(k, d)
+                    except Exception as e:  # noqa: BLE001
+                        acc.violation(
+                            "acyclic-base-rejected:%s:%s" % (type(e).__name__, ident.split(":")[2] if ident.count(":") >= 2 else ident),
+                            "Kconfig.__init__: a well-formed acyclic tree loads and evaluates",
+                            "acyclic tree %s parser %d: %s: %s" % (ident, pv, type(e).__name__, _short(e, 300)),
+                            lambda: _mk_script(_BODY_BASE, TEXT=text, PV=pv))
+                    continue
+                acc.nontrivial += 1
+                cls_kind = re.sub(r"/(plain|neg|lhs)", "", ident)
+                try:
+                    k = h_load(text, "", d, pv)
+                except K.KconfigError as e:
+                    msg = str(e)
+                    if not _names_loop(msg, names):
+                        acc.violation(
+                            "cycle-error-does-not-name-loop:" + cls_kind, "_check_dep_loop_sym/_found_dep_loop: the KconfigError names the loop",
+                            "cyclic tree %s parser %d rejected with %s, loop members %s not all named" % (ident, pv, _short(msg.strip(), 200), names),
+                            lambda: _mk_script(_BODY_CYCLE, TEXT=text, PV=pv, NAMES=names))
+                    continue
+                except Exception as e:  # noqa: BLE001
+                    acc.violation(
+                        "cycle-wrong-error:%s:%s" % (type(e).__name__, cls_kind), "Kconfig.__init__: a cyclic tree is rejected with a KconfigError naming the loop",
+                        "cyclic tree %s parser %d: %s: %s" % (ident, pv, type(e).__name__, _short(e, 200)),
+                        lambda: _mk_script(_BODY_CYCLE, TEXT=text, PV=pv, NAMES=names))
+                    continue
+                after = "evaluation happens to finish"
+                try:
+                    snapshot(k)
+                except BaseException as e:  # noqa: BLE001
+                    after = "evaluation then fails with " + type(e).__name__
+                acc.violation(
+                    "cycle-accepted:" + cls_kind, "_check_dep_loop_sym/_check_dep_loop_choice (called from Kconfig.__init__): a tree with a dependency cycle is rejected",
+                    "cyclic tree %s (loop through %s) parser %d was ACCEPTED at load; %s\n%s" % (ident, names, pv, after, text),
+                    lambda: _mk_script(_BODY_CYCLE, TEXT=text, PV=pv, NAMES=names))
+
+
+# ----------------------------------------------------------------------------------------------
+# run
+# ----------------------------------------------------------------------------------------------
+
+_TASK_FN = {
+    "C01": _c01_task,
+    "C03": _c03_task,
+    "C05": lambda *a: _hist_task("C05", *a),
+    "C06": lambda *a: _hist_task("C06", *a),
+    "C09": lambda *a: _hist_task("C09", *a),
+}
+
+
+def _tmp_root():
+    """memory-backed scratch space when there is one (many small files are written and read back)"""
+    return "/dev/shm" if os.path.isdir("/dev/shm") and os.access("/dev/shm", os.W_OK) else None
+
+
+def _worker(args):
+    prop, tier, seed, chunk, cyc = args
+    h_silence()
+    G.scrub_env()
+    sys.setrecursionlimit(3000)
+    if _tmp_root():
+        tempfile.tempdir = _tmp_root()   # rtc.gen validates its random trees in tempfile directories as well
+    acc = Acc()
+    state = {"minimized": 0}
+    err = None
+    with tempfile.TemporaryDirectory(prefix="drv_eval", dir=_tmp_root()) as d:
+        try:
+            for task in chunk:
+                _TASK_FN[prop](acc, task, tier, seed, d, state)
+            if cyc:
+                _c09_cycle_chunk(acc, cyc, d)
+        except BaseException as e:  # noqa: BLE001 - an exception of the DRIVER (library exceptions are caught per case)
+            err = "%s: %s\n%s" % (type(e).__name__, e, traceback.format_exc())
+    res = acc.dump()
+    res["error"] = err
+    return res
+
+
+_CONTRACTS = {
+    "C01": [
+        "Symbol.str_value / bool_value (every option, every configuration): equals the documented precedence -- enabled `set` > user value if the prompt is "
+        "visible (numbers: inside the active range) > enabled `set default` under the target's direct dependencies > first `default` whose condition holds > "
+        "n / empty; bool raised to y by an enabled `select`, and by an enabled `imply` when its own dependencies hold and no effective user value; numbers "
+        "clamped into the active range -- evaluated on an independent parse of the Kconfig text",
+        "Symbol.visibility / Choice.visibility / _visibility: y iff some definition has a prompt whose `if` && own and inherited `depends on` && enclosing `if` / "
+        "`menu` && the `visible if` of EVERY enclosing menu && (member) visible choice holds",
+        "Symbol.set_value on an option whose prompt condition is false (or that has no prompt): every str_value / visibility / assignable / selection and the "
+        "header, kconfgen header, CMake, JSON and sdkconfig outputs (modulo the `# default:` marker line) are identical to the configuration without that user value",
+    ],
+    "C03": [
+        "Symbol.set_value / unset_value, Choice.set_value / unset_value, _restore_default, Kconfig.load_config (after EACH op of a history, reads of a varying subset "
+        "in between): the complete snapshot (str_value, visibility, assignable, config_string, _write_to_conf of every option, selection / visibility / assignable of "
+        "every choice) equals the snapshot of a twin after Kconfig._invalidate_all(), and of the instance itself after _invalidate_all() at the end",
+        "same mutators: the snapshot equals that of a FRESH instance to which gen.user_state() (+ choice modes) of the final state was applied with "
+        "gen.apply_user_state (canonical order) or in a permuted order (histories without stale default-marked loads)",
+        "every read (Symbol.str_value / visibility / assignable / config_string, Choice.selection): gen.snapshot == gen.snapshot_reversed; reading a subset first "
+        "changes nothing; the user state after an op does not depend on earlier reads",
+        "Kconfig._build_dep + _add_choice_deps (right after construction): for every option X and every non-constant symbol / choice L among the leaves of X's prompt "
+        "conditions, default values and conditions, range low / high / condition, rev_dep, weak_rev_dep, direct_dep, value / condition / source of every rev_values "
+        "and weak_rev_values element, its choice (member), and for a choice its prompt conditions, default conditions and members: X in L._dependents",
+    ],
+    "C05": [
+        "Choice.selection / Symbol.bool_value of members (after every op): a visible choice with a visible member has exactly one member at y, an invisible choice none",
+        "Choice._selection / _selection_from_defaults: selected member == user pick if visible, else first default whose condition holds AND whose member is visible "
+        "(continuing past defaults that name invisible members), else first visible member -- rule evaluated on an independent parse of the Kconfig text",
+        "Kconfig.write_autoconf, kconfgen.core.write_header / write_cmake / get_json_values: the selected member is the only member defined / non-empty / true",
+        "Kconfig.load_config: of several members assigned y in one file the last one becomes the user pick",
+    ],
+    "C06": [
+        "Symbol.str_value (after every op, also for values forced by `set` / `set default`, user values in odd spellings via set_value and load_config): y|n; "
+        "[+-]?[0-9]+ for int; (0x)?[0-9a-fA-F]+ for hex (no sign); finite float for float; empty only when nothing provides a value",
+        "Symbol.str_value: inside the first range whose condition holds (bounds literal or the current value of the bound option), whenever low <= high",
+        "Kconfig.write_autoconf, kconfgen.core.write_header / write_cmake / get_json_values, Kconfig.write_config: return without raising; header and CMake render "
+        "hex with 0x prefix and the same number (header token read as a C literal); JSON has int for int / hex, float for float, equal to the value",
+    ],
+    "C09": [
+        "Kconfig.__init__ -> _check_dep_loop_sym / _check_dep_loop_choice / _found_dep_loop: a tree that is cyclic by construction (one back edge of every kind, "
+        "through left and RIGHT operands of comparisons, through choice membership, across two choices) raises KconfigError containing 'Dependency loop' and the "
+        "names of the options on the loop; the same tree without the back edge loads and evaluates",
+        "every accepted tree of the corpus: every mutator, Symbol.str_value / visibility / assignable / config_string, Choice.selection, write_config / write_autoconf / "
+        "kconfgen header / CMake / JSON return without an exception (incl. RecursionError) after every op of the histories",
+    ],
+}
+
+
+def _bound_text(prop, tier, seed, n_small, n_cyc=0, n_base=0):
+    sz = _SIZES[tier]
+    trees = ("%d hand-written trees (symbol-valued range low/high for int/hex/float, comparisons with an option on the right-hand side, `set T=OTHER_STRING`, "
+             "set / set default with ranges, choices with conditional member prompts and several defaults, choice inside `visible if` menu with `if` inside the choice, "
+             "choice defined twice, nested menus with `visible if`, two coupled choices, select / imply with dependencies, option defined twice with two prompts; both "
+             "parser versions) + gen.small_trees(3) (%d trees, 1..3 options) + %d random trees gen_tree(Random(%d*1000003+i), %d) (<= %d options, all DEFAULT_FEATURES "
+             "of rtc.gen); small / random trees alternate between parser version 1 and 2 by index") % (len(_HAND), n_small, sz["rand"], seed, sz["n_syms"], sz["n_syms"])
+    if prop == "C01":
+        return trees + ("; per tree and parser %d configurations (hand trees %d): the empty one, single assignments of every candidate value (type table of rtc.gen "
+                        "VALUES + every literal of the tree +-1), random multi-assignments; each configuration on a fresh instance" % (sz["cfgs"], sz["hand_cfgs"]))
+    hist = "per tree and parser %d histories of %d ops (hand trees: %d of %d; small trees: 2 of 6)" % (
+        sz["hist"] + (0 if prop == "C03" else 1), sz["hlen"], sz["hand_hist"], sz["hand_hlen"])
+    ops = " from set (valid, malformed%s values) / unset / _restore_default / pick / Choice.unset_value / Choice.set_value / _restore_default(choice) / load_config(%s)" % (
+        ", oddly spelled" if prop in ("C06", "C09") else "",
+        "plain files with replace and merge; the instance's own write_config output; files with stale `# default:` entries" if prop in ("C03", "C09") else "plain files, replace and merge")
+    if prop == "C09":
+        return trees + "; " + hist + ops + "; plus %d cyclic trees (2- and 3-cycles over every pair of edge kinds x operand position, 11 choice shapes) and %d acyclic base trees, parsers 1 and 2, cyclic ones loaded twice under parser 1 (set iteration order varies between instances)" % (n_cyc, n_base)
+    return trees + "; " + hist + ops
+
+
+def run(prop, tier="quick", seed=0, jobs=16):
+    t0 = time.time()
+    res = {"name": NAME, "property": prop, "kind": "bounded", "status": "ok", "bound": "", "rule": "", "contracts": _CONTRACTS.get(prop, []),
+           "evaluations": 0, "distinct_nontrivial": 0, "samples": [], "violations": [], "seconds": 0.0}
+    try:
+        if prop not in PROPERTIES:
+            raise ValueError("property %s is not served by %s" % (prop, NAME))
+        if tier not in _SIZES:
+            raise ValueError("unknown tier %r" % (tier,))
+        if not os.path.abspath(K.__file__).startswith(os.path.abspath(_REPO) + os.sep):
+            raise RuntimeError("esp_kconfiglib imported from %s, not from %s" % (K.__file__, _REPO))
+        jobs = max(1, int(jobs))
+        tasks = _tasks(tier, seed)
+        n_small = sum(1 for t in tasks if t[0] == "small")
+        cyc_items = []
+        n_cyc = n_base = 0
+        if prop == "C09":
+            cyc, bases = _cyclic_trees(tier)
+            n_cyc, n_base = len(cyc), len(bases)
+            cyc_items = [("cyc", i, n, t) for i, n, t in cyc] + [("base", i, [], t) for i, t in bases]
+        n_chunks = jobs * 4
+        chunks = [tasks[i::n_chunks] for i in range(n_chunks)]
+        cchunks = [cyc_items[i::n_chunks] for i in range(n_chunks)]
+        args = [(prop, tier, seed, chunks[i], cchunks[i]) for i in range(n_chunks) if chunks[i] or cchunks[i]]
+        if jobs == 1:
+            parts = [_worker(a) for a in args]
+        else:
+            with multiprocessing.get_context("fork").Pool(jobs) as pool:
+                parts = pool.map(_worker, args, chunksize=1)
+        viol = {}
+        branches = {}
+        for p in parts:
+            if p["error"]:
+                raise RuntimeError("driver error in a worker: " + p["error"])
+            res["evaluations"] += p["evals"]
+            res["distinct_nontrivial"] += p["nontrivial"]
+            for s in p["samples"]:
+                if len(res["samples"]) < 5:
+                    res["samples"].append(s)
+            for b, n in p["branches"].items():
+                branches[b] = branches.get(b, 0) + n
+            for cls, v in p["viol"].items():
+                if cls in viol:
+                    viol[cls]["count"] += v["count"]
+                    if len(v["script"]) < len(viol[cls]["script"]):
+                        v["count"] = viol[cls]["count"]
+                        viol[cls] = v
+                else:
+                    viol[cls] = v
+        res["violations"] = [viol[c] for c in sorted(viol)]
+        res["branches"] = dict(sorted(branches.items()))
+        res["bound"] = _bound_text(prop, tier, seed, n_small, n_cyc, n_base)
+        res["rule"] = ("hand-written, small and cyclic trees are a fixed enumeration; the seed only selects the random trees (gen_tree(Random(seed*1000003+i))); histories, "
+                       "assignments and read subsets are drawn from Random(sha256(property, tree kind, tree index, seed for random trees, parser, history index)); "
+                       "work is split over %d chunks by index stride and merged in chunk order" % n_chunks)
+    except BaseException as e:  # noqa: BLE001
+        res["status"] = "checker_error"
+        res["reason"] = "%s: %s\n%s" % (type(e).__name__, e, traceback.format_exc())
+    res["seconds"] = round(time.time() - t0, 2)
+    return res
+
+
+def main(argv=None):
+    argv = list(sys.argv[1:] if argv is None else argv)
+    if not argv:
+        print("usage: python -m rtc.drv_eval <%s> [quick|thorough] [seed] [jobs]" % "|".join(PROPERTIES))
+        return 2
+    prop = argv[0]
+    tier = argv[1] if len(argv) > 1 else "quick"
+    seed = int(argv[2]) if len(argv) > 2 else 0
+    jobs = int(argv[3]) if len(argv) > 3 else min(16, os.cpu_count() or 1)
+    G.scrub_env()
+    out = run(prop, tier, seed, jobs)
+    sys.stdout.write(json.dumps(out, indent=1, default=str) + "\n")
+    return 0 if out["status"] == "ok" else 1
+
+
+if __name__ == "__main__":
+    sys.exit(main())
